@@ -87,6 +87,7 @@ def param_groups(ps):
     g = {}
     g["profile_geometry"] = dig({k: getattr(prof, k) for k in PROFILE_GEOM})
     g["profile_hydraulics"] = dig({k: getattr(prof, k) for k in PROFILE_HYD})
+    g["profile_adjusted_fc"] = dig(np.asarray(getattr(prof, "th_fc_Adj", ()), dtype=float))
     g["soil_scalars"] = dig({k: getattr(ps.Soil, k, None) for k in SOIL_SCALARS})
     g["irrigation"] = dig(dict(ps.IrrMngt.__dict__))
     g["fallow_irrigation"] = dig(dict(ps.FallowIrrMngt.__dict__))
